@@ -83,6 +83,23 @@ def check_config(cfg, acc):
         except Exception as e:  # noqa: BLE001
             viol("exception", "sample_momentum:" + type(e).__name__, repr(e)[:200], "momentum")
             continue
+        # ---- order of first use: the Hamiltonian (metric inverse, log-determinant) is evaluated on
+        # a brand-new system BEFORE its first momentum draw (a sampler resuming from states that
+        # carry momenta does this)
+        acc.count("evaluations")
+        try:
+            case3 = zoo.build_case(cfg)
+            S3 = case3.system
+            S3.h(zoo.mk_state(q, p))
+            cols = [np.array(S3.sample_momentum(zoo.mk_state(q, None), BasisRng(np.eye(d)[i])),
+                             dtype=float) for i in range(d)]
+            L3 = np.stack(cols, 1)
+            if maxerr(L3 @ L3.T, C) > tol:
+                viol("covariance", "sample_momentum_covariance_after_hamiltonian_first",
+                     L3 @ L3.T, C, state=si)
+        except Exception as e:  # noqa: BLE001
+            viol("exception", "h_then_sample_momentum:" + type(e).__name__, repr(e)[:200],
+                 "momentum")
         # ---- a second system object of the same class (other parameters) refreshing the momentum
         # of a state (or a copy of it) that the first system has already worked on
         acc.count("evaluations")
